@@ -4,7 +4,8 @@ Specs: specs/Fixes.tla (state machine "apply a suggested fix": ApplyEdit, geomet
 order-independence law), MCFixes.tla (small abstract universe, all application orders),
 FixesObs.tla (observation validation of recorded diagnostics + fixes, canonical splice),
 FixCases.tla / MCFixCases.tla / FixCasesObs.tla (abstract behaviour cases: trigger shape x
-operand effects x context; the equivalence relation evaluated on recorded observation tables).
+operand effects x context x occurrence variation of repeated metavariables; the equivalence
+relation evaluated on recorded observation tables).
 
 Conformance:
   (O) harness/cmd/h-fixes `record` runs the REAL analyzers through the REAL runner over every
@@ -14,7 +15,9 @@ Conformance:
       the patched text;
   (3) the patched text (TLC's splice, cross-checked by a Python splice) goes to the property's own
       oracle: go/parser, import fix-up, go/types (`h-fixes check`);
-  (4) TLC (MCFixCases) enumerates trigger-shape x operand-effect x context cases; they are
+  (4) TLC (MCFixCases) enumerates trigger-shape x operand-effect x context x occurrence-variation
+      cases (occurrences of a repeated metavariable identical, or one of them a near-equal variant,
+      which exercises the checks' matching conditions); they are
       instantiated as executable Go functions whose operands call emit-functions, the real
       S*/QF* analyzers are run on them, every offered fix is applied, original and fixed
       programs are compiled natively and run on all input vectors of a small domain; TLC
@@ -291,7 +294,8 @@ def diag_case(meta, extra=None):
 
 def laws(ctx):
     cfg = "MCFixes_laws.cfg" if (ctx.quick or os.environ.get("C16_CAP")) else "MCFixes_laws_big.cfg"
-    r = vlib.run_tlc(ctx, "MCFixes", cfg, workers=min(vlib.NCPU, 10), timeout=3000, coverage=not ctx.quick)
+    nw = int(os.environ.get("C16_TLC_WORKERS", "4" if ctx.quick else "10"))
+    r = vlib.run_tlc(ctx, "MCFixes", cfg, workers=min(vlib.NCPU, nw), timeout=3000, coverage=not ctx.quick)
     vlib.tlc_require_ok(r, "Fixes laws (%s)" % cfg)
     if r.distinct < 1000:
         raise Inconclusive("MCFixes explored only %d states" % r.distinct)
@@ -579,7 +583,7 @@ def run(ctx):
         "distinct_nontrivial": len({(m["diag"]["cat"], norm_msg(m["fix"]["msg"]), len(m["fix"]["edits"])) for m in art.fmeta}) + beh["cases_with_fix"],
         "rule": "evaluations = recorded diagnostics + recorded suggested fixes (each judged by TLC/FixesObs, each fix spliced and sent to go/parser+go/types) "
                 "+ native executions of behaviour cases (original and fixed function x input vector). distinct_nontrivial = distinct (check, fix message shape, "
-                "number of edits) triples among fixes actually offered by the real analyzers + distinct abstract behaviour cases (shape x operand effects x context, "
+                "number of edits) triples among fixes actually offered by the real analyzers + distinct abstract behaviour cases (shape x operand effects x context x occurrence variation, "
                 "enumerated by TLC from FixCases.tla) for which the real analyzer offered a fix that was applied and executed.",
         "exhaustive": False,
         "laws": {"module": "MCFixes", "config": lawcfg, "states": lawr.distinct, "transitions": lawr.generated, "wall_s": round(lawr.wall, 1),
@@ -605,6 +609,7 @@ def run(ctx):
         "clauses 1-2: TLC evaluates Fixes.tla's geometry predicates on artefacts recorded from the real runner (observation validation); line tables are computed from the file bytes, independently of go/token",
         "clause 3 is decided by go/parser + go/types after an AST-level import fix-up (unused imports dropped; std packages / packages imported elsewhere in the package added when the replacement text names them)",
         "clause 4 is decided by native execution of original vs fixed functions (IRSem route of DESIGN.md is future work); only checks with a generator template; QF1009/QF1010 (documented as behaviour-changing) excluded",
+        "clause 4, matching conditions: repeated metavariables of a trigger shape are instantiated identically or with one near-equal occurrence (FixCases.tla occurrence variation); a check that does not fire on a variant is not judged",
         "positions in files with //line directives or cgo are excluded, as the property says",
     ]
 
@@ -613,7 +618,10 @@ def replay(ctx, helper):
     doc = json.load(open(ctx.replay))
     case = doc["case"]
     if case.get("clause") == 4:
-        C16_behaviour.run_behaviour(ctx, helper, sys.modules[__name__], only=case.get("abstract"))
+        beh = C16_behaviour.run_behaviour(ctx, helper, sys.modules[__name__], only=case.get("abstract"))
+        print("note: behaviour replay: %d cases, %d with a fix, %d fix applications, %d differences; occurrence variation: %s" % (
+            beh["cases_instantiated"], beh["cases_with_fix"], beh["fix_applications_executed"], beh["behaviour_differences"],
+            json.dumps(beh["occurrence_variation"], sort_keys=True)), flush=True)
         return
     job = case["job"]
     units = [u for u in testdata_units() if {"check": u["check"], "ver": u["ver"]} in job.get("origin", [])]
